@@ -111,10 +111,11 @@ Commit(t) ==
   /\ op' = Op("Commit", t, 0, 0, 0, {}, Plain("ok"))
   /\ UNCHANGED snap
 
-\* Abort, an error returned by the function of Updates, a panic raised inside it: nothing is published.
+\* Abort, an error returned by the function of Updates, a panic raised inside it, its goroutine leaving it through
+\* runtime.Goexit: nothing is published.
 EndWithout(t, how) ==
   /\ txn[t].st = "open"
-  /\ how \in {"FnError", "FnPanic"} => txn[t].managed
+  /\ how \in {"FnError", "FnPanic", "FnGoexit"} => txn[t].managed
   /\ how = "Abort" => ~txn[t].managed
   /\ IF txn[t].write
        THEN /\ lock' = 0 /\ txn' = [txn EXCEPT ![t] = TxnDone]
@@ -183,7 +184,7 @@ Next ==
   \/ \E t \in Txns, k \in KindsUsed, m \in MIdx, p \in PIdx : TxnWrite(t, k, m, p)
   \/ \E t \in Txns, ms \in TruncSets : TxnTruncate(t, ms)
   \/ \E t \in Txns : Commit(t) \/ FnReturn(t) \/ Forget(t)
-  \/ \E t \in Txns, how \in {"Abort", "FnError", "FnPanic"} : EndWithout(t, how)
+  \/ \E t \in Txns, how \in {"Abort", "FnError", "FnPanic", "FnGoexit"} : EndWithout(t, how)
   \/ \E t \in Txns, c \in SettledUsed : UseSettled(t, c)
   \/ \E s \in Snaps : RouterIter(s) \/ DropSnap(s)
   \/ \E t \in Txns, s \in Snaps : TxnIter(t, s) \/ TxnSnapshot(t, s)
@@ -223,7 +224,7 @@ PublishOnlyAtCommit ==
 
 \* C04: Abort / error / panic publish nothing and release the lock
 AbortLeavesNothing ==
-  [][ op'.name \in {"Abort", "FnError", "FnPanic"} => (pub' = pub /\ lock' = 0) ]_vars
+  [][ op'.name \in {"Abort", "FnError", "FnPanic", "FnGoexit"} => (pub' = pub /\ lock' = 0) ]_vars
 
 \* C02: a failed call changes nothing, anywhere
 FailedCallNoEffect ==
